@@ -196,7 +196,9 @@ fn index(input: &[u8]) -> IResult<&[u8], Index> {
                 tuple((tag_no_case("last"), multispace0, char('+'), multispace0)),
                 i32,
             ),
-            Index::LastIndex,
+            // `last + -2147483648` can not be printed as `last - N` with an i32 N,
+            // keep the offset in the same range as the `last - N` form.
+            |v| Index::LastIndex(v.max(-i32::MAX)),
         ),
         map(tag_no_case("last"), |_| Index::LastIndex(0)),
     ))(input)
